@@ -197,6 +197,7 @@ impl B {
             d.root = d.push(Node { kind: sh.kind, off: 8, len: sh.w, ..NONODE });
             d.n = 8 + sh.w;
         } else {
+            assert!(enc_len(sh) <= CAP, "harness document exceeds the builder capacity");
             let (id, len) = d.put(sh, 0);
             d.root = id;
             d.n = len;
@@ -302,6 +303,24 @@ impl B {
             (o, nd.len)
         }
     }
+}
+
+/// encoded length of a shape (concrete)
+pub fn enc_len(sh: &Sh) -> usize {
+    if sh.kind <= K_STR {
+        return sh.w;
+    }
+    let n = sh.kids.len();
+    let mut t = 4 + 4 * (if sh.kind == K_OBJ { 2 * n } else { n });
+    let mut i = 0;
+    while i < n {
+        if sh.kind == K_OBJ {
+            t += sh.klens[i];
+        }
+        t += enc_len(&sh.kids[i]);
+        i += 1;
+    }
+    t
 }
 
 /// lexicographic bytewise comparison (shorter prefix first)
@@ -432,7 +451,7 @@ pub fn split2(n: usize, m: usize, f: impl Fn(usize, usize)) {
 // ---------------------------------------------------------------------------------------------
 // Shape catalogue shared by the single-document properties. `k` picks the shape, (i, j) the classes
 // of its two variable leaves (from table `t`); `f` receives the built document.
-pub const NSHAPES: usize = 9;
+pub const NSHAPES: usize = 10;
 pub fn with_shape(k: usize, ci: (u8, usize), cj: (u8, usize), f: impl Fn(&B)) {
     let (x, y) = (lf(ci), lf(cj));
     match k {
@@ -444,7 +463,9 @@ pub fn with_shape(k: usize, ci: (u8, usize), cj: (u8, usize), f: impl Fn(&B)) {
         5 => f(&B::build(&x)),
         6 => f(&B::build(&arr(&[]))),
         7 => f(&B::build(&obj(&[], &[]))),
-        _ => f(&B::build(&obj(&[1, 1, 2], &[obj(&[1], &[x]), y, leaf(K_NULL, 0)]))),
+        8 => f(&B::build(&obj(&[1, 1, 2], &[obj(&[1], &[x]), y, leaf(K_NULL, 0)]))),
+        // a longer key that sorts before a shorter one ("ab" < "b"), then a third
+        _ => f(&B::build(&obj(&[2, 1, 1], &[x, y, leaf(K_TRUE, 0)]))),
     }
 }
 
